@@ -176,7 +176,9 @@ AddAct(a) == IF hist # <<>> /\ Last(hist).s = "session"
              THEN Append(Front(hist), [Last(hist) EXCEPT !.acts = Append(@, a)]) ELSE hist
 
 RootReq(t) ==
-  /\ ctl.mode = "sess" /\ ctl.stack = <<>>
+  \* (a caller that caught the panic of an aborted top-down build may keep the session: the session-local consistent
+  \* set and error list survive, the executing-task marker is reset by Session::require)
+  /\ (ctl.mode = "sess" \/ (ctl.mode = "aborted" /\ Conform /\ ~ctl.inBU)) /\ ctl.stack = <<>>
   /\ Conform \/ (IF ctl.todo # <<>> THEN t = Head(ctl.todo) ELSE (m.probe = FALSE /\ ctl.roots < MaxRoots))
   /\ Emit(<<[ev |-> "root_call", t |-> t], Ev("build_start"), [ev |-> "require_start", t |-> t, c |-> "any"]>>, prog)
   /\ ctl' = [ctl EXCEPT !.stack = <<Frame("root", t), Frame("mc", t)>>, !.roots = @ + 1,
